@@ -48,6 +48,13 @@ pub open(crate) spec fn auth_seq(a: Auth) -> Seq<(Mac, Key)> { a.0@ }
 pub open(crate) spec fn share_bit(s: Share) -> bool { s.0 }
 pub open(crate) spec fn share_seq(s: Share) -> Seq<(Mac, Key)> { s.1.0@ }
 
+/// XOR of the first `upto` keys of a (mac,key) vector
+pub open(crate) spec fn xor_keys_spec(a: Seq<(Mac, Key)>, upto: int) -> u128
+    decreases upto
+{
+    if upto <= 0 { 0u128 } else { xor_keys_spec(a, upto - 1) ^ a[upto - 1].1.0 }
+}
+
 /// `r` is the share-wise XOR of `a` and `b`
 pub open(crate) spec fn is_xor_share(a: Share, b: Share, r: Share) -> bool {
     r.0 == (a.0 ^ b.0) && r.1.0@ =~= xor_mk(a.1.0@, b.1.0@)
